@@ -162,8 +162,9 @@ def check(case, acc):
         elif o != exp:
             acc.fail("wrong-elements" if not (isinstance(o, tuple) and o and o[0] == "noncanonical") else "noncanonical-result", exp, o,
                      classifier=_classify(idx, L))
-    if not np.array_equal(decode(r), a):
-        acc.fail("operand-modified", a.tolist(), decode(r).tolist())
+    post = attempt(lambda: decode(r).tolist())
+    if post != a.tolist():
+        acc.fail("operand-modified", a.tolist(), post)
 
 
 def _rla_obs(x, joined):
